@@ -43,7 +43,7 @@ pub struct FIINEntry {
     #[br(count = 64)]
     #[bw(pad_size_to = 64)]
     #[bw(map = |x : &String | x.as_bytes())]
-    #[br(map = | x: Vec<u8> | String::from_utf8(x).unwrap().trim_matches(char::from(0)).to_string())]
+    #[br(map = | x: Vec<u8> | String::from_utf8_lossy(&x).trim_matches(char::from(0)).to_string())]
     pub file_name: String,
 
     /// SHA1 of the file
